@@ -150,6 +150,16 @@ fn build(ctx: &Ctx, tier: Tier, seed: u64) -> Vec<Job<'static>> {
                 let op = if rng.chance(1, 2) { UserOp::PromptKa } else { UserOp::PromptNak };
                 sc.script.push(Entry::User { ent: 0, op, put: 0, at: Trigger::AfterPdu { src: 0, dst: 1, n: rng.below(3) as u32 } });
             }
+            // a receiver that its user has suspended still processes what arrives: the delivery may
+            // complete during the suspension, and what is delivered again afterwards meets the same
+            // obligations
+            if !unack && rng.chance(1, 5) {
+                let at = Trigger::AfterPdu { src: 0, dst: 1, n: rng.below(prof.fwd.len() as u64) as u32 };
+                sc.script.push(Entry::User { ent: 1, op: UserOp::Suspend, put: 0, at: at.clone() });
+                if rng.chance(2, 3) {
+                    sc.script.push(Entry::User { ent: 1, op: UserOp::Resume, put: 0, at: Trigger::Plus(Box::new(at), *rng.pick(&[1000u64, 300_000, 1_500_000])) });
+                }
+            }
             // bias: make the window likely
             if rng.chance(2, 3) {
                 sc.script.push(Entry::Fault { src: 0, dst: 1, sel: Sel::Kind(Kind::AckFin, 0), act: Act::Drop });
